@@ -46,7 +46,12 @@ def handleKern (j : Json) : R Json := do
   match fn with
   | "union_many" =>
       let arrs ← (← arr (← fld j "arrays")).toList.mapM (fun a => do pure (← natList a).toArray)
-      pure (jKern (Kern.unionManyK arrs))
+      -- the index loop with checked accesses (C09) and the list merge the exactness theorem is about (C08) must agree
+      let checked := Kern.unionManyChecked arrs
+      let merged := Kern.unionManyK arrs
+      match checked, merged with
+      | .ok a, .ok b => if a == b then pure (jKern checked) else pure (Json.mkObj [("err", Json.str "modelsDisagree")])
+      | _, _ => pure (jKern checked)
   | _ =>
     let l ← optArr j "l"; let r ← optArr j "r"
     let guardOr := match j.getObjVal? "guard_or" with | .ok (Json.bool b) => b | _ => true
